@@ -156,6 +156,8 @@ static void _iovec_fini(void) {
 static void _iovec_init(void) {
 	iovec_types = calloc(sizeof(*iovec_types), MPT_ENUM(_TypeVectorSize));
 	size_t i;
+	/* generic data vector */
+	*((size_t *) &iovec_types[MPT_ENUM(TypeVector) - MPT_ENUM(_TypeVectorBase)].size) = sizeof(struct iovec);
 	for (i = 0; i < MPT_arrsize(scalar_sizes); i++) {
 		int pos = scalar_sizes[i].type - MPT_ENUM(_TypeScalarBase);
 		*((size_t *) &iovec_types[pos].size) = sizeof(struct iovec);
